@@ -33,6 +33,10 @@ type VarCase struct {
 	Mask2    int      `json:"mask2,omitempty"`
 	Vals2    []string `json:"vals2,omitempty"`
 	SetFirst bool     `json:"set_first,omitempty"`
+	// Twin (stage cases with x at the stage level): the pipeline holds a second, independent stage of the same task
+	// that gives the same names other values (x = <stage value>_tw); the two run at the same time, and each must
+	// resolve its own stage's values
+	Twin bool `json:"twin,omitempty"`
 }
 
 func (c VarCase) canon() string { b, _ := json.Marshal(c); return string(b) }
@@ -65,6 +69,10 @@ func runVars(c VarCase, dir string) error {
 		tvars = tvars.Set("y", c.Vals2[2])
 	}
 	cmds := gen.List{cmd, `printf 'GREET=%s\n' '{{ .greet }}'`}
+	twin := c.Twin && c.AsStage && has(3)
+	if twin {
+		cmds = append(gen.List{"sleep 0.15"}, cmds...) // both stages are in flight together
+	}
 	if ycmd != "" {
 		cmds = append(cmds, ycmd)
 	}
@@ -92,7 +100,15 @@ func runVars(c VarCase, dir string) error {
 		}
 		stage = stage.Set("variables", sv)
 	}
-	cfg = cfg.Set("pipelines", gen.Map{{K: "pp", V: gen.List{stage}}})
+	stages := gen.List{stage}
+	if twin {
+		sv := gen.Map{{K: "x", V: c.Vals[3] + "_tw"}}
+		if has2(3) {
+			sv = sv.Set("y", c.Vals2[3]+"_tw")
+		}
+		stages = append(stages, gen.Map{{K: "name", V: "tw"}, {K: "task", V: "tk"}, {K: "variables", V: sv}})
+	}
+	cfg = cfg.Set("pipelines", gen.Map{{K: "pp", V: stages}})
 	os.WriteFile(filepath.Join(dir, "t.yaml"), []byte(gen.YAML(cfg)), 0o644)
 	env := cli.Env{Bin: drv.Bin(), Dir: dir, Home: filepath.Join(dir, "home"), Extra: []string{"TMPDIR=" + filepath.Join(dir, "tmpd")}}
 	args := []string{"-c", "t.yaml", "--raw"}
@@ -138,6 +154,22 @@ func runVars(c VarCase, dir string) error {
 	if wantG := "GREET=G(" + c.Vals[top] + ")\n"; !strings.Contains(r.Stdout, wantG) {
 		return fmt.Errorf("argv %q, x defined at %v: the templated variable greet = G({{ .x }}) must resolve with this run's x: want line %q, stdout %q", args, present(c.Mask), wantG, r.Stdout)
 	}
+	if twin {
+		wantT := fmt.Sprintf("X=%s_tw other=taskother R=%s T=%s A=[%s] L=%s E=[%s]\n", c.Vals[3], dir, filepath.Join(dir, "tmpd"), joined, listOf(c.Args), joined)
+		wantTG := "GREET=G(" + c.Vals[3] + "_tw)\n"
+		if !strings.Contains(r.Stdout, wantT) || !strings.Contains(r.Stdout, wantTG) {
+			return fmt.Errorf("argv %q, x defined at %v: the second stage of the same task (x = %s_tw, running at the same time) must resolve its own stage's value: want lines %q and %q, stdout %q", args, present(c.Mask), c.Vals[3], wantT, wantTG, r.Stdout)
+		}
+		if has2(3) {
+			if wantY := "Y=" + c.Vals2[3] + "_tw\n"; !strings.Contains(r.Stdout, wantY) {
+				return fmt.Errorf("argv %q: the second stage of the same task must resolve its own y: want line %q, stdout %q", args, wantY, r.Stdout)
+			}
+		}
+	}
+	nGreet := 2
+	if twin {
+		nGreet = 3
+	}
 	if both {
 		topD := -1
 		for i := 0; i < 3; i++ {
@@ -155,7 +187,7 @@ func runVars(c VarCase, dir string) error {
 				lastG = l
 			}
 		}
-		if !strings.HasPrefix(lastX, "X="+c.Vals[topD]+" other=") || lastG != "GREET=G("+c.Vals[topD]+")" || strings.Count(r.Stdout, "GREET=") != 2 {
+		if !strings.HasPrefix(lastX, "X="+c.Vals[topD]+" other=") || lastG != "GREET=G("+c.Vals[topD]+")" || strings.Count(r.Stdout, "GREET=") != nGreet {
 			return fmt.Errorf("argv %q, x defined at %v: the direct run behind the pipeline must resolve x (and greet) without the stage level, to %q: stdout %q", args, present(c.Mask), c.Vals[topD], r.Stdout)
 		}
 	}
@@ -213,11 +245,15 @@ func TestVars(t *testing.T) {
 		}
 		vals2 := rapid.Permutation([]string{"y_config", "b_set", "y_task", "n_stage"}).Draw(rt, "vals2")
 		setFirst := rapid.Bool().Draw(rt, "y-set-first")
+		twin := asStage && rapid.Bool().Draw(rt, "twin-stage")
 		for mask := 1; mask < 16; mask++ {
 			if !asStage && mask&8 != 0 {
 				continue
 			}
-			c := VarCase{Mask: mask, AsStage: asStage, Args: words, Dash: dash, Vals: vals}
+			c := VarCase{Mask: mask, AsStage: asStage, Args: words, Dash: dash, Vals: vals, Twin: twin && mask&8 != 0}
+			if c.Twin {
+				drv.Class("two stages of one task at the same time")
+			}
 			if mask2 != 0 {
 				c.Mask2, c.Vals2, c.SetFirst = mask2, vals2, setFirst
 				if mask&2 != 0 && mask2&2 != 0 {
